@@ -93,6 +93,17 @@ TEXT = {
   "note": "Lean kernel; correspondence incl. the ordered stream of event/check/download callbacks, sampled by this run's campaign.",
   "technique": "Lean 4 theorem (per-call characterisation of state.json and the emitted actions) + differential correspondence check",
  },
+ "C09": {
+  "level": "Theorem C09_holds: for every history whose effective inits configure one public key, the C09 monitor accepts the model trace - after an update "
+           "reports n installed, n is the next-boot patch (installed_is_next, every disk); and once every record of number n matches the artifact in place, n stays "
+           "selected, its artifact stays a file and next-boot queries report n after every later call (restarts, launch reports of other patches, checks, failed/no-op "
+           "updates, rollbacks of other numbers, damage elsewhere) until another install, a failed/crashed boot of n, a rollback naming n, a release change or outside "
+           "damage to the state files or n's artifact. Invariant SelD pushed through every patch-manager function, section and call (step_sel). The same monitor runs "
+           "on the real library's traces.",
+  "design_ref": "DESIGN.md section 3, C09",
+  "note": "Lean kernel; model/code correspondence sampled by this run's campaign (out-of-order numbers, installs during boot, rollbacks of other numbers).",
+  "technique": "Lean 4 theorem (inductive invariant over all histories) + differential correspondence check",
+ },
  "C10": {
   "level": "Theorem C10_holds: for every history the C10 monitor accepts the model trace - after a check or update whose response lists n as rolled back, "
            "n has no artifact and is not the next-boot patch after that call and every later one, until an update installs n again (or the release changes / "
